@@ -77,6 +77,11 @@ open_('C19', 'C19/network/edges/name-with-closing-braces',
       "Mermaid network: a task name containing '}}' (or ending with '}') closes the {{...}} node text early, so the edge lines of that task cannot be read back (name 'x}}y') (F-V2)",
       {'kind': 'viz', 'sched': _two, 'names': {'1': 'x}}y', '2': 'plain'}, 'sections': {}, 'now': dt(2020, 1, 1), 'styles': False})
 
+_zero = S([T(0, estimate=8), T(2, estimate=8)], links=[[1, 0]], now=dt(2020, 1, 1))
+open_('C19', 'C19/network/edges/task-id-0-collides-with-start-node',
+      "Mermaid network: the Start node is written with the node id 0, so a task whose id is 0 (a legal id) is merged with it: its dependency edges read as Start edges (F-V3)",
+      {'kind': 'viz', 'sched': _zero, 'names': {'0': 'zero', '2': 'two'}, 'sections': {}, 'now': dt(2020, 1, 1), 'styles': False})
+
 # ------------------------------------------------------------------------------------------------- fixed (regressions)
 fixed('C01', 'C01/self-link/preds=:list', 'b6bd215', 't.predecessors = [t] accepted (self link; all_predecessors then recurses forever) (F-T1)',
       H([1, 2], [['preds=', 't0', ['t0'], 'list']]))
